@@ -436,6 +436,21 @@ func checkProdCase(c prodCase, rec *Rec) error {
 		g := c.G.Model()
 		d := denseOf(g)
 		var view graph.Graph
+		// reading a view must not disturb the graph underneath, whatever its representation, and reading it again gives the same
+		for bname, base := range map[string]graph.Graph{"dense": denseOf(g), "sparse": sparseOf(g), "dense-bytes": reps(g)["dense-bytes"]} {
+			var v graph.Graph
+			if err = build(func() { v = graph.Complement(base) }); err != nil {
+				return err
+			}
+			for round := 0; round < 2; round++ {
+				if err = sameAs(fmt.Sprintf("%s over a %s graph (read #%d)", desc, bname, round+1), v, g.Complement()); err != nil {
+					return err
+				}
+				if err = sameAs(fmt.Sprintf("the %s graph under a Complement view after the view was read", bname), base, g); err != nil {
+					return err
+				}
+			}
+		}
 		if err = build(func() { view = graph.Complement(d) }); err != nil {
 			return err
 		}
